@@ -299,6 +299,7 @@ def drive(case, scratch):
         return r
 
     ai_box = [None]
+    user_asts = []        # AST transformers the harness registered on the user's behalf
 
     def snapshot():
         ai = ai_box[0]
@@ -310,6 +311,7 @@ def drive(case, scratch):
         d = {"slots": slots, "eff": effective(), "has_shell": H.ip is not None,
              "ast": [tok(x) for x in asts], "cleanup": [tok(x) for x in cls_],
              "ast_own": [own(x) for x in asts], "cleanup_own": [own(x) for x in cls_],
+             "ast_user": [any(x is u for u in user_asts) for x in asts],
              "line": [],
              "loaded": H.ip is not None and "pyflyby" in H.ip.extension_manager.loaded,
              "attr": hasattr(H.ip, "_auto_importer"),
@@ -633,6 +635,22 @@ def drive(case, scratch):
             for stmt in case.get("pre_imports", {}).get(str(idx), []):
                 exec(stmt, H.ip.user_ns)
             ent["cell"] = do_cell(op)
+        elif op["op"] == "UserAst":
+            # the user registers an AST transformer of their own (IPython's public ip.ast_transformers): placed before
+            # or after pyflyby's according to where the operation stands in the sequence
+            import ast as _ast
+
+            class ZzUserTransformer(_ast.NodeTransformer):
+                def __init__(self, how):
+                    self.how = how
+
+                def visit_Constant(self, node):
+                    if type(node.value) is int:
+                        return _ast.copy_location(_ast.Constant(-node.value if self.how == "negate" else node.value + 100), node)
+                    return node
+            t = ZzUserTransformer(op.get("how", "negate"))
+            user_asts.append(t)
+            H.ip.ast_transformers.append(t)
         elif op["op"] in ("BreakDb", "RepairDb"):
             # the user's database file becomes unparsable / is repaired; pyflyby keeps a loaded database cached
             # until %load_ext / %reload_ext clear the cache
